@@ -175,3 +175,20 @@ def wrapper_patterns(fl):
         rep = to.text() if isinstance(to, ccp.Tmpl) and to.is_const() else None
         out.append((callee, chars, rep))
     return out
+
+
+def innermost_tmpl(v):
+    """Peel string-to-string wrappers (replace chains, indenter) off a written value down to the literal skeleton."""
+    for _ in range(64):
+        if isinstance(v, ccp.Tmpl) and len(v.parts) == 1 and isinstance(v.parts[0], ccp.Hole):
+            inner = v.parts[0].v
+            if isinstance(inner, ccp.Call) and not inner.callee.endswith("to_string") and inner.args \
+                    and isinstance(inner.args[0], (ccp.Call, ccp.Tmpl)):
+                v = inner
+                continue
+            return v
+        if isinstance(v, ccp.Call) and v.args and isinstance(v.args[0], (ccp.Call, ccp.Tmpl)):
+            v = v.args[0]
+            continue
+        return v
+    return v
